@@ -52,10 +52,18 @@ WIDTHS = [1.0, 2.0, 0.5, 0.25, 0.1, 0.3, 2.5, 7.0, 1e-3]
 # ----------------------------------------------------------------------------
 # generation
 # ----------------------------------------------------------------------------
-def draw_adaptive_value(rng, w, shift, cap):
-    """Values that stress floor/ceil arithmetic on the grid shift + k*w, |k| <= cap."""
+def draw_adaptive_value(rng, w, shift, cap, base_k=0):
+    """Values that stress floor/ceil arithmetic on the grid shift + k*w, |k - base_k| <= cap."""
     r = rng.random()
     k = rng.randint(-cap, cap) if rng.random() < 0.25 else rng.randint(-min(12, cap), min(12, cap))
+    if base_k:
+        # far from the origin: the same shapes of values around base_k * w (decimal literals make no sense there)
+        k += base_k
+        if r < 0.25:
+            return k * w + shift
+        if r < 0.45:
+            return build.near(k * w + shift, rng.choice([-1, 1]))
+        return (k + rng.random()) * w + shift
     if r < 0.25:
         return k * w + shift  # exact grid multiple (as computed in floats)
     if r < 0.40:
@@ -71,13 +79,13 @@ def draw_adaptive_value(rng, w, shift, cap):
     return (k + rng.random()) * w + shift
 
 
-def bounded(rng, w, shift, cap):
+def bounded(rng, w, shift, cap, base_k=0):
     """draw_adaptive_value clipped so that bins never grow beyond ~2*cap per axis."""
     for _ in range(6):
-        x = draw_adaptive_value(rng, w, shift, cap)
-        if abs(x - shift) <= cap * w:
+        x = draw_adaptive_value(rng, w, shift, cap, base_k)
+        if abs(x - shift - base_k * w) <= (cap + 1) * w:
             return x
-    return (rng.randint(-cap + 1, cap - 1) + rng.random()) * w + shift
+    return (base_k + rng.randint(-cap + 1, cap - 1) + rng.random()) * w + shift
 
 
 def generate(rng, seed, part):
@@ -88,7 +96,8 @@ def generate(rng, seed, part):
     axes = []
     for _ in range(ndim):
         w = rng.choice(WIDTHS)
-        ax = {"width": w, "align": rng.random() < 0.8, "shift": None, "start": "empty"}
+        ax = {"width": w, "align": rng.random() < 0.8, "shift": None, "start": "empty",
+              "base_k": rng.choice([0, 0, 0, 0, 10 ** 6, -3 * 10 ** 5, 12345678])}
         if rng.random() < 0.25:
             ax["shift"] = rng.choice([0.5, 0.25, w / 2, 0.1, w / 4])
         axes.append(ax)
@@ -102,12 +111,12 @@ def generate(rng, seed, part):
     if create == "class" and rng.random() < 0.4:
         for ax in axes:
             ax["start"] = "bins"
-            ax["times_min"] = rng.randint(-5, 5)
+            ax["times_min"] = rng.randint(-5, 5) + ax["base_k"]
             ax["count"] = rng.randint(1, 4)
     n = rng.choice([1, 2, 3, 5, 8, 12, 20, 40])
     entries = []
     for _ in range(n):
-        vals = [bounded(rng, ax["width"], ax["shift"] or 0.0, cap) for ax in axes]
+        vals = [bounded(rng, ax["width"], ax["shift"] or 0.0, cap, ax.get("base_k", 0)) for ax in axes]
         entries.append([vals[0] if ndim == 1 else vals, build.draw_weight(rng, wkind)])
     if create == "facade" and rng.random() < 0.4 and n >= 2:
         cfg["prefill"] = rng.randint(1, max(1, n // 2))  # first entries go into the constructing call
